@@ -17,9 +17,9 @@ def build_cases(run, rng, nworlds, nqueries, ndocs=(3, 7), depth=2, nletters=2, 
         n = rng.randrange(ndocs[0], ndocs[1] + 1)
         adocs = {"k%d" % i: world.rand_doc(rng, nletters=nletters, boosts=(wi % 3 == 2), maxtoks=maxtoks) for i in range(n)}
         plan = world.rand_plan(rng, adocs.keys())
-        w = world.World(adocs, plan, storage=storage or rng.choice(["ram", "file"]),
-                        blocklimit=blocklimit if blocklimit else rng.choice([None, 1, 2, 3]),
-                        compound=rng.random() < 0.7)
+        wcfg = {"storage": storage or rng.choice(["ram", "file"]),
+                "blocklimit": blocklimit if blocklimit else rng.choice([None, 1, 2, 3]), "compound": rng.random() < 0.7}
+        w = world.World(adocs, plan, **wcfg)
         try:
             from whoosh import scoring
             with w.ix.searcher(weighting=scoring.Frequency()) as s:
@@ -36,7 +36,8 @@ def build_cases(run, rng, nworlds, nqueries, ndocs=(3, 7), depth=2, nletters=2, 
                     run.count(len(obs))
                 cases.append({"idx": idx, "qs": qs})
                 meta.append({"plan": plan, "nseg": len(s.reader().leaf_readers()),
-                             "deleted": sum(1 for d in idx["docs"] if not d["live"])})
+                             "deleted": sum(1 for d in idx["docs"] if not d["live"]), "world": wcfg,
+                             "paths": list(paths), "limits": list(limits), "cmp": cmp})
         finally:
             w.close()
     return cases, meta
@@ -108,7 +109,9 @@ def report(run, pid, cases, meta, rejects, check):
         cl = classes.get((ci, qi)) or classes.get((ci, qi, oi)) or EXTRA_CLASSES.get((ci, qi, oi))
         if cl:
             sig["class"] = cl
-        run.violation(sig, {"idx": cs["idx"], "plan": meta[ci]["plan"], "q": qo["q"], "obs": o, "expected": exp})
+        run.violation(sig, {"idx": cs["idx"], "plan": meta[ci]["plan"], "q": qo["q"], "obs": o, "expected": exp,
+                            "world": meta[ci].get("world"), "paths": meta[ci].get("paths"),
+                            "limits": meta[ci].get("limits"), "cmp": meta[ci].get("cmp")})
     for ci, cs in enumerate(cases):
         for qi, qo in enumerate(cs["qs"]):
             if (ci, qi) not in bad:
@@ -168,6 +171,32 @@ def big_cases(run, rng, nworlds):
     return cases, meta
 
 
+def replay_world(run, rp, check):
+    """Re-executes a recorded (index, query, access path) on the current tree and has TLC judge it again.
+    Used by the properties whose observations are QueryCheck observations over harness.world indexes."""
+    p = rp["payload"]
+    if not p.get("world") or any(isinstance(st[1], str) for st in p["plan"]):
+        raise NotImplementedError("this replay file carries no re-executable index description")
+    from whoosh import scoring
+    adocs = dict((d["key"], {"t": d["t"], "n": d["n"], "b4": d.get("b4", 4)}) for d in p["idx"]["docs"])
+    w = world.World(adocs, [tuple(st) for st in p["plan"]], **p["world"])
+    try:
+        with w.ix.searcher(weighting=scoring.Frequency()) as s:
+            idx = w.abstract_index(s.reader())
+            obs = qobs.obs_paths(s, world.to_query(p["q"]), tuple(p.get("paths") or PATHS),
+                                 limits=tuple(p.get("limits") or (1, 2, 3)), cmp=p.get("cmp") or "members", alt=True)
+            obs = [o for o in obs if o.get("path") == p["obs"].get("path")] or obs
+            run.count(len(obs))
+            cases = [{"idx": idx, "qs": [{"q": p["q"], "obs": obs}]}]
+            meta = [{"plan": p["plan"], "nseg": len(s.reader().leaf_readers()),
+                     "deleted": sum(1 for d in idx["docs"] if not d["live"]), "world": p["world"],
+                     "paths": p.get("paths"), "limits": p.get("limits"), "cmp": p.get("cmp")}]
+    finally:
+        w.close()
+    rejects = qobs.judge(run, cases)
+    report(run, run.pid, cases, meta, rejects, check)
+
+
 def check(run):
     quick = run.tier == "quick"
     rng = random.Random(run.seed + 101)
@@ -188,5 +217,4 @@ def check(run):
 
 
 def replay(run, rp):
-    p = rp["payload"]
-    raise NotImplementedError
+    replay_world(run, rp, rp["sig"].get("check", "c01"))
